@@ -30,6 +30,38 @@ type connOp struct {
 	Mutating bool
 	// Fetch: the result is a record sequence (prefix semantics under cuts).
 	Fetch bool
+	// Codecs of the three stored batches of partition 0 (nil: none, gzip, none).
+	Codecs []int
+}
+
+func (o connOp) codecs() []int {
+	if o.Codecs == nil {
+		return []int{0, 1, 0}
+	}
+	return o.Codecs
+}
+
+// connOpsC17 adds, for the cut enumeration, fetches of a log whose last batch is compressed with
+// each codec: a cut inside a compressed payload at the end of a response is only noticed through the
+// byte accounting of the message set, not by a following batch header.
+func connOpsC17() []connOp {
+	ops := connOps()
+	var readBatch connOp
+	for _, o := range ops {
+		if o.Name == "ReadBatch" {
+			readBatch = o
+		}
+	}
+	for codec := 1; codec <= 4; codec++ {
+		o := readBatch
+		o.Name = "ReadBatch/" + refcodec.CodecNames[codec] + "-tail"
+		o.Codecs = []int{0, 0, codec}
+		if codec == 4 {
+			o.Versions = []int{10} // zstd needs record batches
+		}
+		ops = append(ops, o)
+	}
+	return ops
 }
 
 func digest(v any) string {
@@ -153,7 +185,9 @@ type connEnv struct {
 
 // newConnEnv builds a one-broker cluster with topic connTopic (partition 0 holds 12 records in three
 // batches) and topic "victim", with the given version caps.
-func newConnEnv(caps map[int]int) *connEnv {
+func newConnEnv(caps map[int]int) *connEnv { return newConnEnvCodecs(caps, []int{0, 1, 0}) }
+
+func newConnEnvCodecs(caps map[int]int, codecs []int) *connEnv {
 	net := fakenet.New()
 	cl := fakecluster.New(net)
 	cl.MaxWaitCap = 5 * time.Millisecond
@@ -179,9 +213,9 @@ func newConnEnv(caps map[int]int) *connEnv {
 		}
 		var enc []byte
 		if magic == 2 {
-			enc, _ = refcodec.NewBatchV2(recs, base, -1, int(base/4)%2).Encode(refcodec.CompressOpts{})
+			enc, _ = refcodec.NewBatchV2(recs, base, -1, codecs[base/4]).Encode(refcodec.CompressOpts{})
 		} else {
-			enc, _ = refcodec.EncodeLegacy(1, int(base/4)%2, recs, refcodec.CompressOpts{})
+			enc, _ = refcodec.EncodeLegacy(1, codecs[base/4], recs, refcodec.CompressOpts{})
 		}
 		pt.AppendStored(&fakecluster.Stored{Bytes: enc, BaseOffset: base, LastOffset: base + 3}, recs)
 	}
